@@ -204,6 +204,9 @@ func (c *Ctx) runCase(cs *Case, f func(cs *Case)) {
 	f(cs)
 	c.mu.Lock()
 	c.res.Evals++
+	if cs.Desc != nil && len(c.res.Samples) < 2 {
+		c.res.Samples = append(c.res.Samples, map[string]interface{}{"stage": cs.Stage, "index": cs.Idx, "case": cs.Desc})
+	}
 	c.mu.Unlock()
 }
 
